@@ -7,7 +7,7 @@ from checks import utfcommon
 def run(ck, tier, seed):
     tmp = vlib.tmpdir("C20")
     cases = os.path.join(tmp, "tags.ndjson")
-    maxlen = 5 if tier == "quick" else 7
+    maxlen = 5 if tier == "quick" else 6
     cfg = utfcommon.cfg_with("Tags_quick.cfg", tmp, MaxLen=maxlen)
     try:
         r = vlib.tlc("Tags.tla", cfg, out_file=cases, timeout=3000, coverage=False, heap="16g")
